@@ -320,18 +320,30 @@ def h_shared(kind):
 BUSY_STEPS_MS = (250, 400, 900, 1000, 1700)
 
 
-def h_busy(kind, n_children=1):
+def h_busy(kind, n_children=1, vanished=None):
     """the peer crashes; the daemon's REAL main_loop keeps being woken up by unrelated events (select never times out) every `step` (arbitrary among
     BUSY_STEPS_MS): the probe, the retransmissions and the teardown must still happen - IKE_SA and kernel SAs gone within DPD interval + budget"""
     from symx import core
     eng = core.engine()
     ik = MODS['ikesa'].IkeSa
     dpd_s = 5
+    if vanished:
+        # the kernel model sits behind the netlink socket: the real xfrm.py error handling runs (a DELSA for an SA that is gone is answered ESRCH)
+        world.SWITCH.install(MODS['xfrm'], wire=True)
+        world.wire_env(MODS)
+    else:
+        world.SWITCH.install(MODS['xfrm'], wire=False)
     n = world.Net(dpd=dpd_s, ike_lifetime=360000, lifetime=36000)
     n.establish()
+    if vanished:
+        # the kernel already removed one of the two SAs of the CHILD_SA on its own (hard expiry) before the peer died
+        ch = n.a.ike_sas[0].child_sas[0]
+        key = world.Kernel.key(world.IP2, 50, ch.outbound_spi) if vanished == 'outbound' else world.Kernel.key(world.IP1, 50, ch.inbound_spi)
+        assert key in n.A.kernel.sad
+        del n.A.kernel.sad[key]
     for i in range(n_children - 1):
         n.pump('B', n.acquire('A', sport=9100 + i, dport=23))
-    assert len(n.a.ike_sas[0].child_sas) == n_children and len(n.A.kernel.sad) == 2 * n_children
+    assert len(n.a.ike_sas[0].child_sas) == n_children and len(n.A.kernel.sad) == 2 * n_children - (1 if vanished else 0)
     c = eng.sym_int('step', 0, len(BUSY_STEPS_MS) - 1)
     step = BUSY_STEPS_MS[eng.concretize(c, 0, len(BUSY_STEPS_MS) - 1) if not isinstance(c, int) else c] / 1000.0
     budget = sum(ik.RETRANSMISSION_DELAY * i for i in range(1, ik.MAX_RETRANSMISSIONS + 1))
@@ -344,6 +356,9 @@ def h_busy(kind, n_children=1):
                                  is_initiator=False, message_id=est.peer_msg_id, payloads=[], encrypted_payloads=[], crypto=est.peer_crypto).to_bytes())
     forged[-1] ^= 0xFF          # right SPIs, wrong checksum
     ev = {'udp_junk': {'kind': 'udp', 'dst': world.IP1, 'src': '203.0.113.77', 'data': junk},
+          'udp_cleartext_spis': {'kind': 'udp', 'dst': world.IP1, 'src': str(world.IP2),
+                                 'data': bytes(m.Message(spi_i=est.spi_i, spi_r=est.spi_r, major=2, minor=0, exchange_type=37, is_response=False, can_use_higher_version=False,
+                                                         is_initiator=False, message_id=est.peer_msg_id, payloads=[], encrypted_payloads=[]).to_bytes())},
           'udp_runt': {'kind': 'udp', 'dst': world.IP1, 'src': '203.0.113.77', 'data': b'\x00' * 11},
           'udp_bad_checksum': {'kind': 'udp', 'dst': world.IP1, 'src': str(world.IP2), 'data': bytes(forged)},
           'udp_unconfigured_init': {'kind': 'udp', 'dst': world.IP1, 'src': '203.0.113.77', 'data': bytes(n.b.ike_sas[0].ike_sa_init_req_data or junk) if False else
@@ -376,8 +391,11 @@ def build_instances(tier):
     for kind in ('init', 'auth', 'child', 'rekey_child', 'rekey_ike'):
         inst.append(Instance(f'retransmission of a {kind} request beside a second IKE_SA of the same connection', h_shared, (kind,), native=nat(h_shared),
                              engine_kw={'max_ticks': 10 ** 7}, must_reach=[('identical', lambda o: o[0] == 'shared')]))
-    for kind in ('udp_junk', 'udp_runt', 'udp_bad_checksum', 'udp_unconfigured_init', 'xfrm_runt', 'xfrm_junk', 'control', 'idle'):
+    for kind in ('udp_junk', 'udp_cleartext_spis', 'udp_runt', 'udp_bad_checksum', 'udp_unconfigured_init', 'xfrm_runt', 'xfrm_junk', 'control', 'idle'):
         inst.append(Instance(f'peer crash under steady {kind} events', h_busy, (kind,), native=nat(h_busy), engine_kw={'max_ticks': 10 ** 7},
+                             must_reach=[('torn down', lambda o: o[0] == 'busy')]))
+    for v in ('outbound', 'inbound'):
+        inst.append(Instance(f'peer crash after the kernel dropped the {v} SA by itself', h_busy, ('idle', 1, v), native=nat(h_busy), engine_kw={'max_ticks': 10 ** 7},
                              must_reach=[('torn down', lambda o: o[0] == 'busy')]))
     for k in (2, 3):
         inst.append(Instance(f'peer crash, IKE_SA with {k} CHILD_SAs', h_busy, ('idle', k), native=nat(h_busy), engine_kw={'max_ticks': 10 ** 7},
